@@ -173,6 +173,8 @@ def handle : List String → Option String
       some (embedLine sys (semverRender sys a) (embedSemVer sys a))
   | ["classify", eco, sa] =>
     match eco with
+    | "maven-spelling" => do let b ← Bytes.ofHex sa; some s!"ok z={b2s (zeroRun b)}"
+    | "pypi-spelling" => do let b ← Bytes.ofHex sa; some s!"ok u={b2s (Pep.earlyUpper b)}"
     | "nuget" => do let a ← nugetOf sa; some (classLine a.valid true [])
     | "gem" => do let a ← gemOf sa; some (classLine a.valid (Gem.inLib a) [("upper", !a.lower)])
     | "pypi" => do
@@ -184,7 +186,7 @@ def handle : List String → Option String
       let a ← mavenOf sa
       some (classLine a.valid (Maven.inLib a)
         [("finalsnapshot", Maven.finalSnapshot a), ("zerosnapshot", Maven.zeroSnapshot a),
-         ("dotunknown", Maven.dotUnknown a)])
+         ("dotunknown", Maven.dotUnknown a), ("zerodot", Maven.zeroDot a)])
     | _ => do
       let _ ← semverSys eco
       let a ← semverOf sa
